@@ -17,6 +17,7 @@ Definition base_name (c : N) : bytes :=
   else if c =? 9 then [80;97;114;115;101]                                     (* Parse *)
   else if c =? 10 then [82;101;102;101;114;101;110;99;101]                    (* Reference *)
   else if c =? 11 then [78;111;110;101;69;114;114;111;114]                     (* NoneError *)
+  else if c =? 12 then [87;114;111;110;103;84;121;112;101]                     (* WrongType *)
   else 63 :: dec_of_N c.
 Fixpoint chain_text (e : perr) : bytes :=
   match e with
